@@ -1173,6 +1173,7 @@ func propC20(c *Ctx) string {
 	c20NoAuth(c, v, "C20")
 	c20Switch(c, v, "C20")
 	c20Suback(c, v)
+	c20AckTokens(c, v)
 	c.NotDecide("correlation under pipelining and schedules at runtime (rests on FIFO ackQueue + single acker)", "custom backends that never call the ack", "the engine's connect timeout (timing)")
 	c.Assume("packet decoding yields one of the 14 concrete packet types (C01/HDR)")
 	return c20Explanation
@@ -1601,4 +1602,107 @@ func c16DeqLock(c *Ctx, v *vocab) {
 	}
 	r.Check(deqs[0].Name+":no globalMutex on the consumer side", len(lockers) == 0, deqs[0].Decl.Pos(), len(reach),
 		"the consumer side of the session queues acquires the global mutex ("+strings.Join(lockers, "; ")+") while Publish may hold it waiting for room in the same queue: producer and consumer wait for each other")
+}
+
+// c20AckTokens: every acknowledgement the acker writes gives back the token its request took: SUBACK and UNSUBACK a
+// subscribe token, PUBACK and PUBCOMP a publish token. A type that falls through without its token leaks one slot
+// per request; after ParallelSubscribes / ParallelPublishes requests the processor blocks and the next request is
+// never answered.
+func c20AckTokens(c *Ctx, v *vocab) {
+	r := c.Rule("C20/ACKTOKENS", "TRACE(table)", "acker: after a successful write of a SUBACK/UNSUBACK a subscribe token is returned, of a PUBACK/PUBCOMP a publish token (decided per packet type over the type switches on the drained packet)", 4)
+	var acker *FuncInfo
+	for _, fi := range c.P.LibFuncs("broker") {
+		if fi.Decl.Body == nil {
+			continue
+		}
+		for _, t := range c.traces(fi).Traces {
+			if t.has(recvOn(v.fAckQueue)) {
+				acker = fi
+			}
+		}
+	}
+	if acker == nil {
+		r.Undecided("acker", 0, "no function drains ackQueue")
+		return
+	}
+	in := c.traces(acker)
+	want := map[string]types.Object{"Suback": v.fSubscribeTokens, "Unsuback": v.fSubscribeTokens, "Puback": v.fPublishTokens, "Pubcomp": v.fPublishTokens}
+	var names []string
+	for n := range want {
+		names = append(names, n)
+	}
+	sort.Strings(names)
+	// the clauses of a type switch list the types they take; default takes the rest
+	listed := func(ts ast.Node, typ string) bool {
+		sw, ok := ts.(*ast.TypeSwitchStmt)
+		if !ok {
+			return false
+		}
+		res := false
+		for _, cl := range sw.Body.List {
+			for _, e := range cl.(*ast.CaseClause).List {
+				if typeIs(acker.Pkg.TypesInfo.TypeOf(e), "packet", typ, true) {
+					res = true
+				}
+			}
+		}
+		return res
+	}
+	for _, typ := range names {
+		var bad *Trace
+		n := 0
+		for _, t := range in.Traces {
+			snd := t.first(or(callTo(v.bSend), callTo(v.connSend)))
+			if snd < 0 || t.errOutcome(t.Ev[snd]) == 1 || !t.has(recvOn(v.fAckQueue)) {
+				continue
+			}
+			consistent := true
+			for _, e := range t.Ev {
+				switch {
+				case e.Kind == EvTypeCase && e.Default:
+					if listed(e.Node, typ) {
+						consistent = false
+					}
+				case e.Kind == EvTypeCase:
+					hit := false
+					for _, ty := range e.Types {
+						if typeIs(ty, "packet", typ, true) {
+							hit = true
+						}
+					}
+					if !hit {
+						consistent = false
+					}
+				case e.Kind == EvOutcome && e.DefCall != nil && e.DefCall.Kind == EvAssert && len(e.DefCall.Types) == 1:
+					// comma-ok assertion on the packet: true only for that type
+					is := typeIs(e.DefCall.Types[0], "packet", typ, true)
+					if e.Outcome != is {
+						consistent = false
+					}
+				}
+			}
+			if !consistent {
+				continue
+			}
+			n++
+			// the token is offered: a send, or a select that has the send as one of its cases (the non-blocking
+			// form `select { case tokens <- x: default: }` cannot lose a token that was taken: the channel has room)
+			offered := t.has(sendOn(want[typ]))
+			hh := &Interp{P: c.P, Info: acker.Pkg.TypesInfo}
+			for i, e := range t.Ev {
+				if e.Kind == EvSelect && e.Select != nil {
+					for _, cl := range e.Select.Body.List {
+						if snd, ok := cl.(*ast.CommClause).Comm.(*ast.SendStmt); ok && chanOnPath(hh, t, i, snd.Chan) == want[typ] {
+							offered = true
+						}
+					}
+				}
+			}
+			if !offered {
+				bad = t
+			}
+		}
+		r.Check(acker.Name+"@"+typ, bad == nil && n > 0, acker.Decl.Pos(), len(in.Traces),
+			"a path writes this acknowledgement without returning the token its request took: the token is lost, the request window shrinks for the rest of the connection", c.witness(bad)...)
+	}
 }
